@@ -110,7 +110,8 @@ Section Rank.
         { intros dp H. unfold reg_deps. rewrite Hps. cbn [snd]. apply deps_of_In. exact H. }
         specialize (Ha Hin).
         destruct (args_loop (resolve_d f) rs h io0 ps1 []) as [rs1 [args|e]]; cbn [snd] in *; [|destruct e; try discriminate; congruence].
-        destruct (cancels (ds_reg d) _); destruct (effective_outcome (ds_reg d) _); discriminate.
+        destruct (cancels (ds_reg d) _); destruct (effective_outcome (ds_reg d) _); try discriminate;
+          match goal with |- context [stores_any ?a ?b ?c] => destruct (stores_any a b c) end; discriminate.
     Qed.
   End Step.
 
